@@ -208,6 +208,21 @@ fn run_job(shape: usize, order: usize, kind: usize, vmode: usize, thorough: bool
                             wc = wc.max((err - 2.0 / n as f64).max(0.0) / wb);
                             evals += 1;
                         }
+                        // at the atoms of tied data the empirical CDF is unambiguous (x is an inserted value, bit for bit): literal
+                        // comparison |cdf(v) - fraction(<= v)|, no tie interval
+                        if (5..=7).contains(&shape) {
+                            let mut prev = f64::NAN;
+                            for &v in sorted.iter() {
+                                if v == prev {
+                                    continue;
+                                }
+                                prev = v;
+                                let c = d.cdf(v);
+                                let f = sorted.partition_point(|&u| u <= v) as f64 / n as f64;
+                                wc = wc.max(((c - f).abs() - 2.0 / n as f64).max(0.0) / wb);
+                                evals += 1;
+                            }
+                        }
                         (excess, wq, wc, evals)
                     });
                     out.inserts += n as u64;
@@ -345,6 +360,6 @@ fn main() {
     run.ev.set("samples", json!([{"shape": "exponential", "order": "bit-reversal", "scale": "K2(delta=50)", "n": 2000, "backlog": 10, "reads_at_eighths": [3], "checked": "n_centroids <= 53 at the read and at the end; rank error of quantile(q) on 403 q values and of cdf(x) on 401 x values <= 1 W + 2/n"}]));
     run.ev.set("rule", json!("(A) every sequence over 5 values + read up to the depth for 4 scale functions x delta in {1.1,2,3,5} x backlog in {0,1,2,inf}; (B) 9 shapes x 5 orders x 4 scale functions x 6 deltas x n in {200,2000[,20000,100000]} x 6 backlogs x every read schedule with <= 1 (quick) / <= 2 (thorough, n <= 2000) reads on 8 stream positions; all cases distinct by construction; shapes uniform/normal/ties-10/cliff additionally with all values multiplied by a power of two up to n*max|v| = 2^1020 and down to max|v| = 2^-1000 (n = 2000, thorough also 20000; backlogs 0/100/n)"));
     run.ev.assume("float inputs are infinite: the claim covers the stated finite families (DESIGN.md 3/C04), values are exact quantile functions, no RNG");
-    run.ev.assume("tie-aware rank interval with tau = 16 ulps of the data range; the literal 'fraction <= quantile(q)' is unsatisfiable on atoms heavier than the bound");
+    run.ev.assume("tie-aware rank interval with tau = 16 ulps of the data range for quantile(q) and for cdf on the x grid (the literal 'fraction <= quantile(q)' is unsatisfiable on atoms heavier than the bound); cdf at the atoms themselves (tied shapes, x an inserted value) is compared literally with the empirical CDF");
     run.finish();
 }
